@@ -203,6 +203,9 @@ def proof_check_streams(pid, name, extra=()):
     if gens.get("streams_error"):
         proof["ok"] = False
         proof["problems"].append("translator tools/gen_streams.py cannot read the current source: " + gens["streams_error"])
+    if gens.get("ref_error") and (name == "C09Connect" or "C09Connect" in extra):
+        proof["ok"] = False
+        proof["problems"].append("translator tools/gen_ref.py cannot read Terminal::disconnect / connect in the current source: " + gens["ref_error"])
     proof["translated_functions"] = [("%s::%s" % (k, f)) for (k, f, n, ins, ps) in (gens.get("streams") or [])]
     return proof
 
@@ -253,6 +256,14 @@ def gen_dir():
     return os.path.join(BUILD, "gen" + repo_tag())
 
 
+def _rm_gen(base):
+    for ext in (".v", ".vo", ".vok", ".vos", ".glob"):
+        try: os.remove(os.path.join(gen_dir(), base + ext))
+        except OSError: pass
+    try: os.remove(os.path.join(gen_dir(), ".compiled"))
+    except OSError: pass
+
+
 def gen_sources():
     """Translators for tabular source, regenerated from the repository on every run."""
     import gen_constants, gen_accessors, gen_formulas, gen_streams, gen_ops, rustmini
@@ -282,8 +293,18 @@ def gen_sources():
             try: os.remove(os.path.join(gen_dir(), "GenOps.v"))
             except OSError: pass
             oinfo, oerr = None, "%s: %s" % (type(ex).__name__, ex)
+        try:
+            import gen_ref
+            rinfo, rerr = gen_ref.main(REPO, gen_dir()), None
+        except (rustmini.ParseError, KeyError, IndexError) as ex:
+            rinfo, rerr = None, "%s: %s" % (type(ex).__name__, ex)
+            _rm_gen("GenRef")
+        # a table that could not be regenerated leaves nothing behind, neither source nor compiled file
+        if ferr: _rm_gen("GenFormulas")
+        if serr: _rm_gen("GenStreams")
+        if oerr: _rm_gen("GenOps")
     return {"constants": items, "n_pub_const": n_all, "accessors": accs, "ctors": ctors, "formulas": flines, "formulas_error": ferr,
-            "streams": sinfo, "streams_error": serr, "ops": oinfo, "ops_error": oerr}
+            "streams": sinfo, "streams_error": serr, "ops": oinfo, "ops_error": oerr, "ref": rinfo, "ref_error": rerr}
 
 
 def compile_gen_theorems(name, extra_gen=()):
